@@ -118,3 +118,16 @@ Theorem C16_lookup_self_description : forall ops w a b r,
     same_assets (f_a0 r) (f_a1 r) a b = true.
 Proof. exact lookup_is_self_description. Qed.
 Print Assumptions C16_lookup_self_description.
+
+From HT Require Import World.World World.Observe Proofs.WFProofs Proofs.PairConfigProofs.
+Theorem C16_pair_config_immutable : forall w o w' p ps,
+  WF w -> exec w o = Ok w' -> w_pairs w p = Some ps ->
+  exists ps', w_pairs w' p = Some ps' /\ same_pair_config ps ps'.
+Proof. exact exec_keeps_pair_config. Qed.
+Print Assumptions C16_pair_config_immutable.
+
+Theorem C16_pair_config_immutable_history : forall ops w p ps,
+  WF w -> w_pairs w p = Some ps ->
+  exists ps', w_pairs (run w ops) p = Some ps' /\ same_pair_config ps ps'.
+Proof. exact run_keeps_pair_config. Qed.
+Print Assumptions C16_pair_config_immutable_history.
